@@ -20,6 +20,7 @@ var (
 	flagWorkers = flag.Int("workers", 0, "parallel workers (0 = all cores)")
 	flagScratch = flag.String("scratch", "", "scratch directory for file-system sandboxes")
 	flagLie     = flag.String("lie", "", "self-test: corrupt one observation (mutant driver)")
+	flagShard   = flag.Bool("shard", false, "internal: this process is one sequential shard of an exec-heavy driver")
 )
 
 func mix(seed int64, id int, salt string) uint32 {
